@@ -1116,4 +1116,252 @@ Section Refine.
       eexists _, _. split; [reflexivity|]. cbn [aspec fst snd Rel res_ok].
       split; [exact HR|]. split; [|reflexivity]. fold es_all. rewrite <- (N2Nat.id i) at 2. rewrite nthN_nat. reflexivity.
   Qed.
+
+  (* ================= seeks: the ceiling through the index ================= *)
+  (* keys: every level sequence is strictly ascending, every index item carries the last key of the
+     block it points to *)
+  Hypothesis Hsorted : forall k, (k <= D)%nat -> sorted_strictb (map fst (lseq k)) = true.
+  Hypothesis Hlastkey : forall k g it, (k < D)%nat -> nth_error (lseq k) g = Some it ->
+    option_map fst (last_opt (kids it)) = Some (fst it).
+
+  Lemma sorted_nth_le (l : list entry) : sorted_strictb (map fst l) = true ->
+    forall p q kp vp kq vq, (p <= q)%nat -> nth_error l p = Some (kp, vp) -> nth_error l q = Some (kq, vq) ->
+    bytes_leb kp kq = true.
+  Proof.
+    intros Hs p q kp vp kq vq Hpq Ep Eq. destruct (Nat.eq_dec p q) as [->|Hne].
+    - rewrite Ep in Eq. injection Eq as <- <-. rewrite bytes_leb_ltb, bytes_ltb_irrefl. reflexivity.
+    - pose proof (sorted_nth_lt l Hs p q kp vp kq vq ltac:(lia) Ep Eq) as H. rewrite bytes_leb_ltb, (ltb_asym _ _ H). reflexivity.
+  Qed.
+
+  Lemma leb_trans_lt q a b : bytes_leb a b = true -> bytes_leb q b = false -> bytes_leb q a = false.
+  Proof.
+    intros Hab Hqb. rewrite bytes_leb_ltb in *. apply Bool.negb_false_iff in Hqb. apply Bool.negb_true_iff in Hab.
+    apply Bool.negb_false_iff. destruct (bytes_total a b) as [H|[H|H]]; [|subst; exact Hqb|congruence].
+    exact (bytes_ltb_trans a b q H Hqb).
+  Qed.
+
+  (* the last entry of group g sits at global index gstart (S g) - 1 and carries the item's key *)
+  Lemma group_last k g it : (k < D)%nat -> nth_error (lseq k) g = Some it ->
+    exists v, nth_error (lseq (S k)) (gstart (lseq k) (S g) - 1) = Some (fst it, v) /\ (gstart (lseq k) g < gstart (lseq k) (S g))%nat.
+  Proof.
+    intros Hk Hn.
+    assert (Hok : item_ok it) by (pose proof (Hitems_all k Hk) as F; rewrite Forall_forall in F; apply F; eapply nth_error_In; exact Hn).
+    pose proof (kids_pos it Hok) as Hp. pose proof (gstart_S _ _ _ Hn) as HS.
+    pose proof (Hlastkey k g it Hk Hn) as Hl. rewrite last_opt_nth in Hl.
+    destruct (nth_error (kids it) (length (kids it) - 1)) as [[lk lv]|] eqn:El; [|discriminate].
+    cbn [option_map fst] in Hl. injection Hl as ->.
+    exists lv. split; [|lia].
+    replace (gstart (lseq k) (S g) - 1)%nat with (gstart (lseq k) g + (length (kids it) - 1))%nat by lia.
+    cbn [lseq]. rewrite (nth_flat _ _ _ _ Hn) by lia. exact El.
+  Qed.
+
+  Lemma ceil_level q k : (k < D)%nat ->
+    let l := lseq k in let g := fs_ge q l 0 in
+    match nth_error l g with
+    | Some pit => (ceil_pos (kids pit) q < length (kids pit))%nat /\
+                  fs_ge q (lseq (S k)) 0 = (gstart l g + ceil_pos (kids pit) q)%nat
+    | None => fs_ge q (lseq (S k)) 0 = length (lseq (S k))
+    end.
+  Proof.
+    intro Hk. cbv zeta. set (l := lseq k). set (g := fs_ge q l 0).
+    pose proof (first_stop_props (fun kk => bytes_leb q kk) l) as (G1 & G2 & G3). cbv zeta in G1, G2, G3. fold (fs_ge q l 0) in G1, G2, G3. fold g in G1, G2, G3.
+    pose proof (Hsorted (S k) ltac:(lia)) as HsS.
+    destruct (nth_error l g) as [pit|] eqn:Eg.
+    - assert (Hok : item_ok pit) by (pose proof (Hitems_all k Hk) as F; rewrite Forall_forall in F; apply F; eapply nth_error_In; exact Eg).
+      destruct pit as [pk pv]. pose proof (G3 pk pv eq_refl) as Hge.
+      destruct (group_last k g (pk, pv) Hk Eg) as (lv & Elast & Hlt). cbn [fst] in Elast.
+      pose proof (first_stop_props (fun kk => bytes_leb q kk) (kids (pk, pv))) as (K1 & K2 & K3). cbv zeta in K1, K2, K3.
+      fold (fs_ge q (kids (pk, pv)) 0) in K1, K2, K3. fold (ceil_pos (kids (pk, pv)) q) in K1, K2, K3.
+      set (j := ceil_pos (kids (pk, pv)) q) in *.
+      pose proof (gstart_S _ _ _ Eg) as HS. fold l in HS.
+      pose proof (kids_pos (pk, pv) Hok) as Hkp.
+      assert (Hj : (j < length (kids (pk, pv)))%nat).
+      { destruct (Nat.lt_ge_cases j (length (kids (pk, pv)))) as [H|H]; [exact H|exfalso].
+        (* the last entry of the block has key pk >= q, so the scan cannot run off the end *)
+        assert (Hlk : nth_error (kids (pk, pv)) (length (kids (pk, pv)) - 1) = Some (pk, lv)).
+        { fold l in Elast, Hlt. replace (gstart l (S g) - 1)%nat with (gstart l g + (length (kids (pk, pv)) - 1))%nat in Elast by lia.
+          cbn [lseq] in Elast. fold l in Elast. rewrite (nth_flat l g (pk, pv) _ Eg) in Elast by lia. exact Elast. }
+        pose proof (K2 (length (kids (pk, pv)) - 1)%nat pk lv ltac:(lia) Hlk) as Hc. congruence. }
+      split; [exact Hj|].
+      unfold fs_ge. apply first_stop_unique.
+      + pose proof (gstart_bound l g (pk, pv) Eg). cbn [lseq]. fold l. lia.
+      + intros p kp vp Hp Ep. destruct (Nat.lt_ge_cases p (gstart l g)) as [Hpg|Hpg].
+        * (* an earlier group: below its last key, which is below q *)
+          assert (Hg0 : (0 < g)%nat) by (destruct g; [rewrite gstart_0 in Hpg; lia|lia]).
+          destruct (nth_error l (g - 1)) as [[k' v']|] eqn:Eg'; [|apply nth_error_None in Eg'; lia].
+          destruct (group_last k (g - 1) (k', v') Hk Eg') as (lv' & Elast' & _). cbn [fst] in Elast'.
+          replace (S (g - 1)) with g in Elast' by lia. fold l in Elast'.
+          pose proof (G2 (g - 1)%nat k' v' ltac:(lia) Eg') as Hlt'.
+          apply (leb_trans_lt q kp k'); [|exact Hlt'].
+          apply (sorted_nth_le (lseq (S k)) HsS p (gstart l g - 1) kp vp k' lv' ltac:(lia) Ep Elast').
+        * (* inside the selected block, before its ceiling *)
+          cbn [lseq] in Ep. fold l in Ep.
+          replace p with (gstart l g + (p - gstart l g))%nat in Ep by lia.
+          rewrite (nth_flat l g (pk, pv) _ Eg) in Ep by lia.
+          apply (K2 (p - gstart l g)%nat kp vp ltac:(lia) Ep).
+      + intros kc vc Ec. cbn [lseq] in Ec. fold l in Ec. rewrite (nth_flat l g (pk, pv) _ Eg) in Ec by lia.
+        apply (K3 kc vc Ec).
+    - (* no item >= q: no entry >= q *)
+      apply nth_error_None in Eg. assert (Hg : g = length l) by lia.
+      unfold fs_ge. apply first_stop_unique; [lia| |intros kc vc Ec; assert (nth_error (lseq (S k)) (length (lseq (S k))) = None) by (apply nth_error_None; lia); congruence].
+      intros p kp vp Hp Ep.
+      pose proof (lseq_nonempty k ltac:(lia)) as Hne. fold l in Hne.
+      assert (Hl0 : (0 < length l)%nat) by (destruct l; [congruence|cbn [length]; lia]).
+      destruct (nth_error l (length l - 1)) as [[k' v']|] eqn:Eg'; [|apply nth_error_None in Eg'; lia].
+      destruct (group_last k (length l - 1) (k', v') Hk Eg') as (lv' & Elast' & _). cbn [fst] in Elast'.
+      replace (S (length l - 1)) with (length l) in Elast' by lia. fold l in Elast'. rewrite gstart_all in Elast'.
+      pose proof (G2 (length l - 1)%nat k' v' ltac:(lia) Eg') as Hlt'.
+      apply (leb_trans_lt q kp k'); [|exact Hlt'].
+      apply (sorted_nth_le (lseq (S k)) HsS p (length (flat_map kids l) - 1) kp vp k' lv' ltac:(cbn [lseq] in Hp; fold l in Hp; lia) Ep Elast').
+  Qed.
+
+  Lemma sdesc_ge q : forall c k, (k + c <= D)%nat -> (fs_ge q (lseq k) 0 < length (lseq k))%nat ->
+    sdesc (MGe q) k (fs_ge q (lseq k) 0) c = Some (fs_ge q (lseq (k + c)) 0) /\
+    (fs_ge q (lseq (k + c)) 0 < length (lseq (k + c)))%nat.
+  Proof.
+    induction c as [|c IH]; intros k Hk Hg.
+    - replace (k + 0)%nat with k by lia. split; [reflexivity|exact Hg].
+    - rewrite sdesc_S. pose proof (ceil_level q k ltac:(lia)) as Hc. cbv zeta in Hc.
+      destruct (nth_error (lseq k) (fs_ge q (lseq k) 0)) as [pit|] eqn:E; [|apply nth_error_None in E; lia].
+      destruct Hc as [Hj Hfs]. cbv zeta. cbn [sel].
+      destruct (Nat.ltb_spec (ceil_pos (kids pit) q) (length (kids pit))); [|lia].
+      rewrite <- Hfs.
+      assert (Hg' : (fs_ge q (lseq (S k)) 0 < length (lseq (S k)))%nat).
+      { rewrite Hfs. pose proof (gstart_bound _ _ _ E). cbn [lseq]. lia. }
+      destruct (IH (S k) ltac:(lia) Hg') as [A B]. replace (k + S c)%nat with (S k + c)%nat by lia. split; [exact A|exact B].
+  Qed.
+
+  Lemma no_ceil_down q : forall c k, (k + c <= D)%nat -> (length (lseq k) <= fs_ge q (lseq k) 0)%nat ->
+    (length (lseq (k + c)) <= fs_ge q (lseq (k + c)) 0)%nat.
+  Proof.
+    induction c as [|c IH]; intros k Hk Hg; [replace (k + 0)%nat with k by lia; exact Hg|].
+    pose proof (ceil_level q k ltac:(lia)) as Hc. cbv zeta in Hc.
+    assert (E : nth_error (lseq k) (fs_ge q (lseq k) 0) = None) by (apply nth_error_None; exact Hg).
+    rewrite E in Hc. replace (k + S c)%nat with (S k + c)%nat by lia. apply IH; [lia|]. rewrite Hc. lia.
+  Qed.
+
+  Lemma sroot_ge q :
+    sroot (MGe q) (S D) = let c := ceil_pos es_all q in if Nat.ltb c (length es_all) then Some c else None.
+  Proof.
+    cbn [sroot sel]. cbv zeta. unfold es_all, ceil_pos.
+    destruct (Nat.ltb_spec (fs_ge q root_items 0) (length root_items)) as [Hg|Hg].
+    - destruct (sdesc_ge q D 0 ltac:(lia) Hg) as [A B]. cbn [plus] in A, B. change (lseq 0) with root_items in A. rewrite A.
+      destruct (Nat.ltb_spec (fs_ge q (lseq D) 0) (length (lseq D))); [reflexivity|lia].
+    - pose proof (no_ceil_down q D 0 ltac:(lia) Hg) as H. cbn [plus] in H.
+      destruct (Nat.ltb_spec (fs_ge q (lseq D) 0) (length (lseq D))); [lia|reflexivity].
+  Qed.
+
+  Theorem ge_refines p st q : Rel p st ->
+    exists st' r, cstep ld root levels st (OGe q) = Done (st', r) /\
+      Rel (fst (aspec es_all p (OGe q))) st' /\ res_ok (snd (aspec es_all p (OGe q))) r /\
+      cs_loads st' <= cs_loads st + N.of_nat (S D).
+  Proof.
+    intro HR. cbn [cstep]. rewrite c_ge_abs.
+    destruct (abs_op_spec (MGe q) true st (abs_ge q) (Rel_Coh p st HR)) as (st' & r & E & Hn & Hres).
+    rewrite sroot_ge in Hres. cbv zeta in Hres. exists st', r. split; [exact E|].
+    cbn [aspec]. rewrite ceil_idx_pos. fold (ceil_pos es_all q).
+    destruct (Nat.ltb_spec (ceil_pos es_all q) (length es_all)) as [Hlt|Hge].
+    - destruct Hres as [Hp Hr]. destruct (nth_error es_all (ceil_pos es_all q)) as [e|] eqn:En; [|apply nth_error_None in En; lia].
+      cbn [at_result fst snd Rel res_ok]. replace (0 + N.of_nat (ceil_pos es_all q)) with (N.of_nat (ceil_pos es_all q)) by lia.
+      rewrite Nat2N.id. split; [exact Hp|]. split; [rewrite Hr; exact En|lia].
+    - destruct Hres as [Hr Hc]. assert (En : nth_error es_all (ceil_pos es_all q) = None) by (apply nth_error_None; exact Hge).
+      rewrite En. cbn [at_result fst snd Rel res_ok]. split; [exact Hc|]. split; [exact Hr|lia].
+  Qed.
+
+  Theorem eq_refines p st q : Rel p st ->
+    exists st' r, cstep ld root levels st (OEq q) = Done (st', r) /\
+      Rel (fst (aspec es_all p (OEq q))) st' /\ res_ok (snd (aspec es_all p (OEq q))) r /\
+      cs_loads st' <= cs_loads st + N.of_nat (S D).
+  Proof.
+    intro HR. destruct (ge_refines p st q HR) as (st' & r & E & A & B & C).
+    cbn [cstep] in *. unfold c_eq. rewrite E. cbn [bind]. eexists _, _. split; [reflexivity|].
+    cbn [aspec] in *. unfold find_idx.
+    destruct (ceil_idx es_all q 0) as [[i [k v]]|]; cbn [at_result fst snd Rel res_ok] in *.
+    - subst r. destruct (bytes_eqb k q); cbn [at_result fst snd Rel res_ok].
+      + split; [exact A|]. split; [reflexivity|exact C].
+      + split; [exact (Pos_Coh _ _ A)|]. split; [reflexivity|exact C].
+    - subst r. split; [exact A|]. split; [reflexivity|exact C].
+  Qed.
+
+  (* first key > q versus first key >= q, on a strictly ascending list *)
+  Lemma gt_of_ge (l : list entry) q : sorted_strictb (map fst l) = true ->
+    let c := fs_ge q l 0 in
+    fs_gt q l 0 = match nth_error l c with
+                  | Some (k, _) => if bytes_eqb k q then S c else c
+                  | None => c
+                  end.
+  Proof.
+    intro Hs. cbv zeta.
+    pose proof (first_stop_props (fun kk => bytes_leb q kk) l) as (G1 & G2 & G3). cbv zeta in G1, G2, G3.
+    fold (fs_ge q l 0) in G1, G2, G3. set (c := fs_ge q l 0) in *.
+    assert (Hbefore : forall p kp vp, (p < c)%nat -> nth_error l p = Some (kp, vp) -> bytes_ltb q kp = false).
+    { intros p kp vp Hp Ep. pose proof (G2 p kp vp Hp Ep) as H. destruct (bytes_ltb q kp) eqn:E; [|reflexivity].
+      rewrite bytes_leb_ltb, (ltb_asym _ _ E) in H. discriminate. }
+    unfold fs_gt. destruct (nth_error l c) as [[k v]|] eqn:Ec.
+    - pose proof (G3 k v eq_refl) as Hge. destruct (bytes_eqb k q) eqn:Eq.
+      + apply bytes_eqb_eq in Eq. subst k. apply first_stop_unique.
+        * assert (c < length l)%nat by (apply nth_error_Some; congruence). lia.
+        * intros p kp vp Hp Ep. destruct (Nat.eq_dec p c) as [->|Hne].
+          -- rewrite Ec in Ep. injection Ep as <- <-. apply bytes_ltb_irrefl.
+          -- apply (Hbefore p kp vp ltac:(lia) Ep).
+        * intros k' v' E'. exact (sorted_nth_lt l Hs c (S c) q v k' v' ltac:(lia) Ec E').
+      + apply first_stop_unique; [exact G1 | exact Hbefore |].
+        intros k' v' E'. rewrite Ec in E'. injection E' as <- <-.
+        rewrite bytes_leb_ltb in Hge. apply Bool.negb_true_iff in Hge.
+        destruct (bytes_total q k) as [H|[H|H]]; [exact H| |congruence].
+        subst k. assert (bytes_eqb q q = true) by (apply bytes_eqb_eq; reflexivity). congruence.
+    - apply first_stop_unique; [exact G1 | exact Hbefore |]. intros k' v' E'. congruence.
+  Qed.
+
+  Theorem le_refines p st q : Rel p st ->
+    exists st' r, cstep ld root levels st (OLe q) = Done (st', r) /\
+      Rel (fst (aspec es_all p (OLe q))) st' /\ res_ok (snd (aspec es_all p (OLe q))) r /\
+      cs_loads st' <= cs_loads st + 2 * N.of_nat (S D).
+  Proof.
+    intro HR. cbn [cstep]. unfold c_le. rewrite c_ge_abs.
+    destruct (abs_op_spec (MGe q) true st (abs_ge q) (Rel_Coh p st HR)) as (st1 & r1 & E1 & Hn1 & Hres).
+    rewrite E1. cbn [bind]. rewrite sroot_ge in Hres. cbv zeta in Hres.
+    pose proof (Hsorted D ltac:(lia)) as HsD. fold es_all in HsD.
+    pose proof (gt_of_ge es_all q HsD) as Hgt. cbv zeta in Hgt. fold (ceil_pos es_all q) in Hgt.
+    cbn [aspec]. rewrite floor_idx_pos. cbv zeta. set (c := ceil_pos es_all q) in *.
+    destruct (Nat.ltb_spec c (length es_all)) as [Hlt|Hge].
+    - destruct Hres as [Hp Hr]. fold es_all in Hr.
+      destruct (nth_error es_all c) as [[k v]|] eqn:Ec; [|apply nth_error_None in Ec; lia].
+      subst r1. destruct (bytes_eqb k q) eqn:Eq.
+      + (* exact match: the ceiling is the floor *)
+        rewrite Hgt. destruct (Nat.eqb_spec (S c) 0); [lia|]. replace (S c - 1)%nat with c by lia. rewrite Ec.
+        eexists _, _. split; [reflexivity|]. cbn [at_result fst snd Rel res_ok].
+        replace (0 + N.of_nat c) with (N.of_nat c) by lia. rewrite Nat2N.id. split; [exact Hp|]. split; [reflexivity|lia].
+      + (* the ceiling is above q: step back *)
+        destruct (c_prev_spec st1 c Hp) as (st2 & r2 & E2 & Hn2 & Hres2). rewrite E2.
+        eexists _, _. split; [reflexivity|]. rewrite Hgt.
+        destruct (Nat.eqb_spec c 0) as [Hc0|Hc0].
+        * rewrite Hc0 in Hres2. cbn [Nat.ltb Nat.leb] in Hres2. destruct Hres2 as [Hr2 Hc2].
+          cbn [at_result fst snd Rel res_ok]. split; [exact Hc2|]. split; [exact Hr2|lia].
+        * destruct (Nat.ltb_spec 0 c); [|lia]. destruct Hres2 as [Hp2 Hr2]. fold es_all in Hr2.
+          destruct (nth_error es_all (c - 1)) as [e|] eqn:En; [|apply nth_error_None in En; lia].
+          cbn [at_result fst snd Rel res_ok]. replace (0 + N.of_nat (c - 1)) with (N.of_nat (c - 1)) by lia. rewrite Nat2N.id.
+          split; [exact Hp2|]. split; [exact Hr2|lia].
+    - (* no key >= q: the last entry is the floor *)
+      destruct Hres as [Hr1 Hc1]. subst r1. rewrite c_first_last_abs.
+      destruct (abs_op_spec MLast false st1 abs_last Hc1) as (st2 & r2 & E2 & Hn2 & Hres2). rewrite E2. cbn [bind].
+      rewrite sroot_last in Hres2. destruct Hres2 as [Hp2 Hr2]. fold es_all in Hp2, Hr2.
+      eexists _, _. split; [reflexivity|].
+      assert (Ec : nth_error es_all c = None) by (apply nth_error_None; exact Hge). rewrite Ec in Hgt. rewrite Hgt.
+      pose proof (lseq_nonempty D ltac:(lia)) as Hne. fold es_all in Hne.
+      assert (Hl : (0 < length es_all)%nat) by (destruct es_all; [congruence|cbn [length]; lia]).
+      pose proof (first_stop_props (fun kk => bytes_leb q kk) es_all) as (G1 & G2 & _). cbv zeta in G1, G2.
+      fold (fs_ge q es_all 0) in G1, G2. fold (ceil_pos es_all q) in G1, G2. fold c in G1, G2.
+      assert (Hcl : c = length es_all) by lia.
+      destruct (Nat.eqb_spec c 0); [lia|]. rewrite Hcl.
+      destruct (nth_error es_all (length es_all - 1)) as [[k v]|] eqn:En; [|apply nth_error_None in En; lia].
+      cbn [at_result fst snd Rel res_ok]. replace (0 + N.of_nat (length es_all - 1)) with (N.of_nat (length es_all - 1)) by lia.
+      rewrite Nat2N.id. split; [exact Hp2|]. split; [|lia].
+      rewrite Hr2. 
+      (* the filter keeps it: the last key is below q *)
+      pose proof (G2 (length es_all - 1)%nat k v ltac:(lia) En) as Hlast.
+      assert (Hkq : bytes_leb k q = true).
+      { rewrite bytes_leb_ltb. rewrite bytes_leb_ltb in Hlast. apply Bool.negb_false_iff in Hlast. rewrite (ltb_asym _ _ Hlast). reflexivity. }
+      rewrite Hkq. reflexivity.
+  Qed.
 End Refine.
